@@ -138,7 +138,7 @@ var (
 )
 
 func phases(s Scenario, tier string) []Phase {
-	if tier == "thorough" && len(s.Thorough) > 0 {
+	if tier == "thorough" {
 		return s.Thorough
 	}
 	return s.Quick
